@@ -9,3 +9,11 @@ def c13_double_slash(rp):
 
 def c13_get_name_with_slash(rp):
     return rp.get('kind') == 'e2e_get' and '/' in rp.get('name', '')
+
+
+def c08_paused_overrun(rp):
+    return rp.get('kind') == 'channel' and any(o[0] == 'X' for o in rp.get('ops', [])) and 'held' in rp.get('detail', {})
+
+
+def c08_zero_pktsize(rp):
+    return rp.get('kind') == 'zero_pktsize'
